@@ -53,6 +53,22 @@ def check(repo, res, tier):
     l4a(repo, res, canon, logic)
     l4b(repo, res, canon, logic)
     l6(repo, res, canon)
+    from . import defined
+    res.rule('C05.L10', 'every attribute read through self in a reachable method has a definition somewhere (class family, '
+                        'class body, store on another object): else AttributeError, the run does not complete')
+    res.rule('C05.L11', 'every name read in a reachable function can have been bound when it is read (structured '
+                        'may-assigned analysis): else NameError/UnboundLocalError, the run does not complete')
+    reach = defined.reachable(repo)
+    nr, nc = defined.check_attrs(repo, res, 'C05.L10', reach)
+    no = defined.check_obj_attrs(repo, res, 'C05.L10', reach)
+    res.ok('C05.L10', 'topsim', None, '%d reads of self attributes in %d reachable methods, %d reads on objects of a known '
+           'package class' % (nr, nc, no), 'all defined')
+    nl, nf = defined.check_names(repo, res, 'C05.L11', reach)
+    res.ok('C05.L11', 'topsim', None, '%d name reads in %d reachable functions' % (nl, nf), 'all bound')
+    res.extra['definite_definition'] = {'reachable_functions': len(reach), 'self_attribute_reads': nr, 'typed_object_reads': no, 'name_reads': nl}
+    if nr < 300 or nl < 1500 or len(reach) < 100 or no < 60:
+        raise AnalysisError('definite-definition rules saw too little (%d attribute reads, %d name reads, %d reachable '
+                            'functions): reachability or the module filter is broken' % (nr, nl, len(reach)))
     from .c10 import check_shared_state
     check_shared_state(repo, res, 'C05.L9', 'the pool of ready tasks (or another per-workflow structure) of one workflow is seen '
                        'by the next: a foreign task is looked up in the wrong graph and the run ends with an exception')
